@@ -1,5 +1,7 @@
 #!/usr/bin/env python3
 """Parse Go race detector logs into coarse keys: the two top non-runtime murex frames."""
+import os
+REPO = os.environ.get('VERIF_REPO', '/repo').rstrip('/')
 import re, sys, glob, collections
 
 def parse(text):
@@ -13,10 +15,10 @@ def parse(text):
             if not m:
                 continue
             frames = re.findall(r'^  (\S+)\(\)\n\s+(\S+?):(\d+)', m.group(1), re.M)
-            fr = [f for f in frames if 'lmorg/murex' in f[0] or '/repo/' in f[1]]
+            fr = [f for f in frames if 'lmorg/murex' in f[0] or (REPO + '/') in f[1]]
             if fr:
                 fn = fr[0][0].replace('github.com/lmorg/murex/', '')
-                tops.append('%s@%s' % (fn, fr[0][1].split('/repo/')[-1]))
+                tops.append('%s@%s' % (fn, fr[0][1].split(REPO + '/')[-1]))
             elif frames:
                 tops.append(frames[0][0])
         if tops:
